@@ -2083,13 +2083,14 @@ func (ls *LState) Resume(th *LState, fn *LFunction, args ...LValue) (ResumeState
 	for idx := top + 2; idx <= ls.GetTop(); idx++ {
 		ret = append(ret, ls.Get(idx))
 	}
-	if len(ret) == 0 {
-		ret = append(ret, LNil)
-	}
 	ls.SetTop(top)
 
 	if haserror {
-		return ResumeError, newApiError(ApiErrorRun, ret[0]), nil
+		var errobj LValue = LNil
+		if len(ret) > 0 {
+			errobj = ret[0]
+		}
+		return ResumeError, newApiError(ApiErrorRun, errobj), nil
 	} else if th.stack.IsEmpty() {
 		return ResumeOK, nil, ret
 	}
